@@ -1,3 +1,4 @@
 package block
 
 var zzThoroughC06 = true
+var zzC06MaxPending = 3
